@@ -738,10 +738,9 @@ def run(ctx):
         if r is not None and ("error" in r) != ("error" in got):
             ctx.disagree("network", desc, got, r)
 
-    ctx.notes.append("partial theorems: parse_render_partial (missing: derivation of 'no -> inside a rendered side' from 'no -> inside a label'; "
-                     "the token, side and arrow levels are proved for arbitrary blanks), split_spec_partial (single-valued constants; "
-                     "per-environment dictionaries by correspondence), coefficient_text (decimal text of 0..99 by kernel evaluation); "
-                     "print_parse is stated on concrete instances only (examples) and checked by the oracle on every generated reaction")
+    ctx.notes.append("no partial theorem left: parse_render (any blanks, no hypothesis on the rendered text), print_parse (all coefficients incl. "
+                     "zero first terms, every label list), split_spec (single values and per-environment dictionaries) are proved in full; "
+                     "hypothesis of parse_render / print_parse: labels are words for str.split() without '+' and '->' (LabelWord)")
     ctx.notes.append("the label check admits '->' and non-ASCII blanks (\\x1c-\\x1f, \\x85, \\xa0 ...) that an equation text cannot carry; "
                      "parse_render / print_parse carry 'label is a word without \"->\"' as a hypothesis (DESIGN §6 C19)")
 
